@@ -481,7 +481,10 @@ class RecImputer:
 
 
 ORDER_CFGS = [("sage", 2), ("sage", 3), ("sage", 4), ("batch", 3), ("batch", 4), ("original", 3), ("sage", 5)]
+# thorough only: millions of orders per configuration, judged by the d*d position marginals (a 1 % bias of one position is ~10 sd)
+ORDER_DEEP_CFGS = [("batch-many", 5), ("batch-many", 6), ("batch-many", 3), ("sage-deep", 5)]
 R_ORDER = {"quick": 60000, "thorough": 600000}
+R_ORDER_DEEP = {"batch-many": 5000000, "sage-deep": 2500000}
 
 
 def order_case(run, idx, cfgspec, runs, seed):
@@ -522,9 +525,33 @@ def order_case(run, idx, cfgspec, runs, seed):
                 known = same
             if ok:
                 orders[tuple(order)] += 1
+    elif kind == "batch-many":
+        imp = RecImputer()
+        e = BatchSage(lambda xx: ({"output": 0.0} if isinstance(xx, dict) else [{"output": 0.0} for _ in xx]), names,
+                      lambda a, b: 0.0, imputer=imp)
+        full = frozenset(names)
+        block = 2000
+        xs, ys = [x] * block, [0] * block
+        for _ in range(runs // block):
+            del imp.subsets[:]
+            e.explain_many(xs, ys, verbose=False)
+            subs = imp.subsets
+            if len(subs) != d * block:
+                orders[None] += block
+                continue
+            for b in range(0, len(subs), d):
+                rem, order = full, []
+                for sub in subs[b:b + d]:
+                    diff = rem - sub
+                    if len(diff) != 1:
+                        order = None
+                        break
+                    order.append(next(iter(diff)))
+                    rem = sub
+                orders[tuple(order) if order else None] += 1
     else:
         imp = RecImputer()
-        if kind == "sage":
+        if kind in ("sage", "sage-deep"):
             e = IncrementalSage(lambda xx: {"output": 0.0}, lambda a, b: 0.0, names, smoothing_alpha=0.5, imputer=imp, dynamic_setting=True)
             e.explain_one(x, 0, update_storage=False)
             step = lambda: e.explain_one(x, 0, update_storage=False)
@@ -547,16 +574,26 @@ def order_case(run, idx, cfgspec, runs, seed):
             orders[tuple(order) if order else None] += 1
     run.ok(runs, kind="orders:" + kind)
     tot = sum(orders.values())
-    ct = CellTests(math.factorial(d), eps=EPS / (2 * len(OUTCOME_CFGS) + 64))
+    ct = CellTests(math.factorial(d) + d * d, eps=EPS / (2 * len(OUTCOME_CFGS) + 64))
     fails = []
     if orders.get(None):
         fails.append(("chain", f"{tag}: {orders[None]} calls whose imputation sets are not a chain"))
+    marg = collections.Counter()
     for o in itertools.permutations(names):
         r = ct.test(orders.get(o, 0), tot, 1 / math.factorial(d), f"{tag} feature order {o}")
         if r:
             fails.append(("order-distribution", r))
         if orders.get(o):
             run.nontriv(("order", tag, o))
+            for pos, f in enumerate(o):
+                marg[(f, pos)] += orders[o]
+    # position marginals: one indicator per call and cell (feature f is the pos-th to be removed), probability 1/d each
+    for f in names:
+        for pos in range(d):
+            r = ct.test(marg.get((f, pos), 0), tot, 1 / d, f"{tag} feature {f!r} at chain position {pos}")
+            if r:
+                fails.append(("order-position-marginal", r))
+    run.count("order-position-cells", d * d)
     run.count("cell-tests", ct.done)
     run.notes[f"{tag}"] = {"calls_decoded": tot, "orders_seen": len(orders), "min_p": ct.min_p, "mdd": ct.max_mdd}
     seen = set()
@@ -939,7 +976,7 @@ def main(run):
                 "explain_many_original} x {joint, product} x storage size m in {2..7, 50, 100, 1000 (bucketed)}; exact binomial "
                 "cells: each of d! orders 1/d!, each row 1/m per chain position / per explained-observation position, row pairs "
                 "across features (product) and across consecutive inner samples 1/m^2; (a2) feature orders at high repetition counts "
-                "(6e4 quick / 6e5 thorough calls per configuration, d in 2..5) through a recording imputer; (a4) a sweep over EVERY storage length 1..70 (and 127..129, 255..257, 1025) with coarse row-uniformity cells; (a3) MOVING storages (interval, "
+                "(6e4 quick / 6e5 thorough calls per configuration, d in 2..5; thorough also 2.5e6 / 5e6 orders for d in 3, 5, 6) through a recording imputer, judged per order (1/d!) and per position marginal (feature f removed pos-th, 1/d); (a4) a sweep over EVERY storage length 1..70 (and 127..129, 255..257, 1025) with coarse row-uniformity cells; (a3) MOVING storages (interval, "
                 "always-insert geometric, uniform, sequence) updated between explanations: every imputed value must stem from the "
                 "storage content current at that call and its position be uniform; (b) outcome level: per-call contribution "
                 "vectors observed through importance_values with alpha=1 in dynamic mode and a frozen storage (or the batch return "
@@ -965,7 +1002,8 @@ def main(run):
         extra_draw.append((grnd.choice(["sage", "pfi", "batch"]), grnd.choice(["joint", "product"]), grnd.choice([2, 3, 4]),
                            grnd.choice([2, 3, 4, 6, 30, 300]), grnd.choice([1, 2, 3])))
     jobs = [("outcome", i, c) for i, c in enumerate(OUTCOME_CFGS + extra_out)] + [("draw", i, c) for i, c in enumerate(DRAW_CFGS + extra_draw)] \
-        + [("order", i, c) for i, c in enumerate(ORDER_CFGS)] + [("moving", i, c) for i, c in enumerate(MOVING_CFGS)] \
+        + [("order", i, c) for i, c in enumerate(ORDER_CFGS)] \
+        + ([("order-deep", i, c) for i, c in enumerate(ORDER_DEEP_CFGS)] if run.tier == "thorough" else []) + [("moving", i, c) for i, c in enumerate(MOVING_CFGS)] \
         + [("wide", 0, None), ("sizes", 0, list(range(1, 36))), ("sizes", 1, list(range(36, 71)) + [127, 128, 129, 255, 256, 257, 1025])] \
         + [("exact", i, c) for i, c in enumerate(EXACT_CFGS)] + [("exact-rows", 0, list(range(1, 41))), ("exact-rows", 1, list(range(41, 81)) + [127, 128, 129, 255, 256, 257])]
     # every shard must touch every anchor: shards run a slice of jobs, coverage is merged by the parent
@@ -977,6 +1015,8 @@ def main(run):
             outcome_case(run, i, c, R_OUTCOME[run.tier], seed)
         elif what == "order":
             order_case(run, i, c, R_ORDER[run.tier], seed)
+        elif what == "order-deep":
+            order_case(run, 100 + i, c, R_ORDER_DEEP[c[0]], seed)
         elif what == "moving":
             moving_case(run, i, c, R_MOVING[run.tier], seed)
         elif what == "exact":
